@@ -2,6 +2,8 @@
 MODULES = [
     "contracts.obs_kernel",
     "contracts.obs_grad",
+    "contracts.obs_init",
+    "contracts.obs_derived",
     "contracts.corr",
     "contracts.dirac",
     "contracts.special",
